@@ -87,7 +87,12 @@ class TemperedStrategy(EmceeStrategy):
                  walker_initial_pos=None, parallel='auto', stages=3,
                  stage_len=30, seed=None):
         self.nwalkers = nwalkers
+        self.nsamples = nsamples
+        self.min_pixels = min_pixels
+        self.npixels = npixels
         self.parallel = parallel
+        self.stages = stages
+        self.stage_len = stage_len
         self.seed = seed
         self.walker_initial_pos = walker_initial_pos
         self.next_initial_dist = next_initial_dist
@@ -101,14 +106,15 @@ class TemperedStrategy(EmceeStrategy):
         self.add_stage_strategy(nsamples, npixels)
 
     def add_stage_strategy(self, nsamples, npixels):
+        stage_seed = self.seed
+        if stage_seed is not None:
+            stage_seed += len(self.stage_strategies)
         self.stage_strategies.append(
             EmceeStrategy(nwalkers=self.nwalkers,
                           nsamples=nsamples,
                           npixels=int(round(npixels)),
                           parallel=self.parallel,
-                          seed=self.seed))
-        if self.seed is not None:
-            self.seed += 1
+                          seed=stage_seed))
 
     def sample(self, model, data):
         start_time = time.time()
